@@ -2,6 +2,8 @@ import PlcModel.Lex
 import PlcModel.Lsp
 import PlcModel.Graph
 import PlcModel.Analyze
+import PlcModel.Cli
+import PlcModel.Decode
 
 /-!
 # plcdrv: line protocol driver for the executable model
@@ -230,6 +232,48 @@ def handleUnit (ws : List String) : String :=
   | none => "bad-arg"
   | some files => showGroups (semantic files)
 
+/-! ### CLI: `cli <check|echo|tokenize> <patharg> ; <patharg> ; …`
+patharg = `M` | `F <flags> <decl…|X>` | `D <flags> <decl…|X> , <flags> <decl…|X> , …`; flags = readable decodable tokenizes as `0`/`1` -/
+
+def splitOnWord (sep : String) : List String → List String → List (List String) → List (List String)
+  | [], cur, acc => acc ++ [cur]
+  | w :: ws, cur, acc => if w == sep then splitOnWord sep ws [] (acc ++ [cur]) else splitOnWord sep ws (cur ++ [w]) acc
+
+def parseCFile (ws : List String) : Option CFile :=
+  match ws with
+  | flags :: rest =>
+    match flags.toList, parseFile rest with
+    | [r, d, t], some u => some { readable := r == '1', decodable := d == '1', tokenizes := t == '1', unit := u }
+    | _, _ => none
+  | [] => none
+
+def parsePathArg (ws : List String) : Option PathArg :=
+  match ws with
+  | ["M"] => some .missing
+  | "F" :: rest => (parseCFile rest).map PathArg.file
+  | "D" :: rest =>
+    if rest.isEmpty then some (.dir []) else
+    (optAll parseCFile (splitOnWord "," rest [] [])).map PathArg.dir
+  | _ => none
+
+def showCli (o : CliOut) : String :=
+  s!"exit={o.exit} ok={if o.ok then 1 else 0} " ++
+    (if o.coded.isEmpty then "-" else " ".intercalate (o.coded.map fun alt => "|".intercalate (alt.map toString)))
+
+def handleCli (ws : List String) : String :=
+  match ws with
+  | act :: rest =>
+    let rest := rest.filter (!·.isEmpty)
+    let args := if rest.isEmpty then some [] else optAll parsePathArg (splitOnWord ";" rest [] [])
+    match args with
+    | none => "bad-arg"
+    | some ps =>
+      if act == "check" then showCli (cliCheck ps)
+      else if act == "echo" then showCli (cliEcho ps)
+      else if act == "tokenize" then showCli (cliTokenize ps)
+      else "bad-op"
+  | [] => "bad-op"
+
 def handle (line : String) : String :=
   match line.trimAscii.toString.splitOn " " with
   | ["lex", h] =>
@@ -246,9 +290,22 @@ def handle (line : String) : String :=
         | none => "null"
         | some d => ",".intercalate (d.map toString))
     | none => "bad-arg"
+  | ["decodelex", h] =>
+    match unhex h with
+    | some b => (match decodeFile b.toList with
+        | some cs => showItems cs (tokenizeProgram cs)
+        | none => "P0028")
+    | none => "bad-arg"
+  | ["decode", h] =>
+    match unhex h with
+    | some b => (match decodeFile b.toList with
+        | some cs => " ".intercalate (cs.map fun c => toString c.toNat)
+        | none => "P0028")
+    | none => "bad-arg"
   | "lsp" :: ws => handleLsp ws
   | "c07" :: ws => handleC07 ws
   | "unit" :: ws => handleUnit ws
+  | "cli" :: ws => handleCli ws
   | _ => "bad-op"
 
 partial def loop (h : IO.FS.Stream) (out : IO.FS.Stream) : IO Unit := do
